@@ -143,7 +143,10 @@ def build(case):
         else:
             q = ir.Select(tuple(items), tuple(groups))
             if mode == "derived" and not unq_variant:
-                q = ir.Select(tuple(ir.Item(ir.Col(f"d{i + 1}", c), c, True) for c in tcols), (ir.FromGroup(ir.Derived(q, f"d{i + 1}", True)),))
+                # every statement uses the SAME derived-table alias and the same inner column names v1, v2, ...: the columns d.v1 of different
+                # statements are different columns (other subquery), whatever they are called
+                inner = ir.Select(tuple(ir.Item(it.e, f"v{j + 1}", True) for j, it in enumerate(q.items)), q.frm)
+                q = ir.Select(tuple(ir.Item(ir.Col("d", f"v{j + 1}"), c, True) for j, c in enumerate(tcols)), (ir.FromGroup(ir.Derived(inner, "d", True)),))
         tgt = Tn(tname)
         if (kind == 0 or mode == "rewrite") and mode != "redefine":
             st_ = ir.Insert(tgt, tuple(tcols) if not star_variant else None, q, "INSERT INTO", False)
@@ -159,6 +162,18 @@ def build(case):
         elif mode != "rewrite":
             targets.append([tname, tcols])
     return out, needs_provider
+
+
+def unqualify(stmts):
+    """the same script with every table written WITHOUT its schema (the tables then live in the default schema: session metadata must find them there too)"""
+    def f(x):
+        if isinstance(x, ir.T) and x.schema == "s":
+            return ir.T(None, x.name, x.alias, x.as_kw)
+        if isinstance(x, (ir.Col, ir.Star)) and x.qual and x.qual.startswith("s."):
+            return type(x)(x.qual[2:], x.name) if isinstance(x, ir.Col) else ir.Star(x.qual[2:])
+        return x
+
+    return [ir.map_ir(s_, f) for s_ in stmts]
 
 
 def reference_paths(stmts, use_provider):
@@ -250,6 +265,9 @@ def _worker(payload):
         use_provider = case[1]
         if needs_provider and not use_provider:
             return None
+        unq = case[0][0][1][0] % 4 == 0  # a quarter of the scripts without schema qualification (decided by a drawn value)
+        if unq:
+            stmts = unqualify(stmts)
         sqls = [ir.r_stmt(s) for s in stmts]
         for s_, q_ in zip(stmts, sqls):
             if not C01.accepted(s_, q_, "ansi"):
@@ -259,7 +277,7 @@ def _worker(payload):
         exp = reference_paths(stmts, use_provider)
         nt = any(len(p) >= 3 for p in exp)
         c = {"script": script, "provider": use_provider, "expected_paths": exp}
-        res_.case((script, use_provider), nt, labels=["provider" if use_provider else "no_provider", f"statements={len(stmts)}"] +
+        res_.case((script, use_provider), nt, labels=["provider" if use_provider else "no_provider", f"statements={len(stmts)}"] + (["unqualified_tables"] if unq else []) +
                   (["needs_session_metadata"] if needs_provider else []) + (["path>=4"] if any(len(p) >= 4 for p in exp) else []),
                   sample=c if len(script) < 500 else None)
         d = compare(exp, actual_paths(script, use_provider))
@@ -362,13 +380,16 @@ def _pattern_worker(payload):
             if stmts is None:
                 res.discard("pattern_not_well_formed")
                 continue
+            unq = use_provider is True and idx % 2 == 0  # every other provider history also without schema qualification
+            if unq:
+                stmts = unqualify(stmts)
             if ctx.out_of_time():
                 res.budget_exhausted = True
                 return res
             script = ";\n".join(ir.r_stmt(s_) for s_ in stmts)
             exp = reference_paths(stmts, use_provider)
             c = {"script": script, "provider": use_provider, "expected_paths": exp, "ops": list(ops)}
-            res.case((script, use_provider), any(len(p) >= 3 for p in exp), labels=["pattern", ("provider_with_stale_catalog" if use_provider == "stale" else "provider") if use_provider else "no_provider", f"ops={len(ops)}"] +
+            res.case((script, use_provider), any(len(p) >= 3 for p in exp), labels=["pattern", ("provider_with_stale_catalog" if use_provider == "stale" else "provider") if use_provider else "no_provider", f"ops={len(ops)}"] + (["unqualified_tables"] if unq else []) +
                      (["redefinition_then_read"] if "defB" in ops and ops.index("defB") < len(ops) - 1 else []), sample=c)
             d = compare(exp, actual_paths(script, use_provider))
             if d is None:
